@@ -1,5 +1,6 @@
 """Dev helper: run one family against the model and print disagreements. Usage: devrun.py <family> [tier] [prop]"""
-import sys, os, json
+import sys, os, json, faulthandler
+if os.environ.get("FAULT"): faulthandler.dump_traceback_later(int(os.environ["FAULT"]), exit=True)
 sys.path.insert(0, os.path.dirname(os.path.abspath(__file__)))
 import lib, check, registry
 fam = registry.FAMILIES[sys.argv[1]]
